@@ -431,7 +431,7 @@ fn main() {
     ck.rule("acyclic @use/@forward graphs over r.scss, a.scss, d/b.scss (, d/c.scss): each file body = list of (@use as u<k> | @forward) x target x spelling in {x, ./x, d/../x | ../d/x}; every file bumps the counter of each module it uses and prints it; files the root cannot reach are empty; distinct = distinct graph; outcome = the CSS text (markers and counters)");
     ck.assume("module CSS is emitted where the module is first loaded (all @use/@forward rules precede every other statement, so this equals dart-sass' dependency order)");
 
-    let (r3, o3) = if quick { (2, 2) } else { (3, 3) };
+    let (r3, o3) = if quick { (2, 2) } else { (3, 2) };
     ck.run(
         "graphs-3",
         &format!("3 files, <= {r3} statements in the root, <= {o3} in a.scss and d/b.scss, 3 spellings"),
@@ -448,14 +448,14 @@ fn main() {
     if !quick {
         ck.run(
             "graphs-4-deep",
-            "4 files, <= 1 statement in the root, <= 2 in a.scss and d/b.scss, <= 1 in d/c.scss, 2 spellings",
-            graphs(4, vec![1, 2, 2, 1], 2, false),
+            "4 files, <= 2 statements in the root and in a.scss, <= 1 in d/b.scss and d/c.scss, 2 spellings",
+            graphs(4, vec![2, 2, 1, 1], 2, false),
             check,
         );
     }
 
     // all files in one directory, canonical URLs only: the diamond shapes proper
-    let fl = if quick { vec![3, 1, 1, 1] } else { vec![3, 2, 2, 1] };
+    let fl = if quick { vec![3, 1, 1, 1] } else { vec![3, 2, 2, 2] };
     ck.run(
         "graphs-4-flat",
         &format!("4 files in one directory, canonical URLs, <= {fl:?} statements per file"),
